@@ -222,7 +222,7 @@ def namedb (cfg : Config) (i : Nat) (e : Int) : Bool :=
 
 /-- Executable form of `StepFin` (EosProofs/Lemmas/MicroExec.lean; all messages but `reconfig`): the message names
 a configured item and effects of its type — the hypothesis under which the driver's `mdoT` is `mstep`
-(`stepFinb_iff`).  Not evaluated by the driver so far. -/
+(`stepFinb_iff`); the driver evaluates it for every message and prints `unnamed …` when it is false. -/
 def stepFinb (s : TState) : MStep → Bool
   | .load i => s.cfg.items.any fun x => x.id == i
   | .start i es => es.all fun e => namedb u s.cfg i e
